@@ -176,7 +176,9 @@ class OrderImportsBlocksTransform(CSTTransformer):
 
     def _create_from_import_stmt(self, module_name, name_alias_set, comments):
         sorted_name_alias = list(name_alias_set)
-        sorted_name_alias.sort(key=lambda t: _natural_key(t[0]))
+        # the aliases come out of a set: the same name imported under several
+        # bindings needs a second key, or their order changes from run to run
+        sorted_name_alias.sort(key=lambda t: (_natural_key(t[0]), t[1] or ""))
         all_ia = [
             cst.ImportAlias(
                 name=cst.Name(name),
